@@ -705,6 +705,10 @@ func LockOps(fn *ssa.Function) []struct {
 	return out
 }
 
+// DeferOrigin reports whether in stands for a deferred call of an absorbed helper, placed at the helper's exits
+// by the analysis normal form: it ran on the helper's panic paths too.
+func DeferOrigin(in ssa.Instruction) bool { return ssa.VerifDeferOrigin[in] }
+
 // ---------------------------------------------------------------------------
 // Dominance helpers.
 
